@@ -44,7 +44,7 @@ where
     for round in 0..rounds {
         s = mix(s);
         let n = 4 + (s % 4) as u32;
-        let cap = 200 + (s >> 8) as usize % 300;
+        let cap = 60 + (s >> 8) as usize % 40; // < 100: no background collector that could make an explicit gc() a no-op
         let ctx = json!({"kind": K::NAME, "n": n, "capacity": cap, "round": round});
         progress(&json!({"sig": format!("C05/{}/capacity-probe/crash", K::NAME), "ctx": ctx}).to_string());
         let order: Vec<u32> = (0..n).collect();
@@ -74,12 +74,12 @@ where
                 let Ok(r) = r else { break };
                 acc = r;
                 pool.push(acc.clone());
-                if i == 20 {
+                if i == 4 && K::KIND != crate::model::BKind::Zbdd {
                     let mut o: Vec<u32> = (0..n).collect();
                     o.reverse();
                     K::set_var_order(&mr, &o, true);
                 }
-                if i == 30 {
+                if i % 8 == 7 {
                     K::gc(&mr);
                 }
             }
@@ -167,7 +167,115 @@ where
     rep.class_n(&format!("{}.capacity_probes", K::NAME), rounds as u64);
 }
 
+/// Automatic background collections: a manager with capacity >= 100 starts its collector at
+/// 95 % fill. Random operations keep the store around the high-water mark while handles are
+/// alive; every result is compared with the model, and after the run (collector idle, exclusive
+/// lock) the structure / reference-count audit must pass.
+fn auto_gc<K: BoolKind>(seed: u64, rounds: u32, rep: &mut Report) {
+    use crate::model::*;
+    let mut s = seed;
+    let mut observed = 0u64;
+    for round in 0..rounds {
+        s = mix(s);
+        let n = 6 + (s % 3) as u32;
+        let cap = 300 + (s >> 16) as usize % 500;
+        let ctx = json!({"kind": K::NAME, "n": n, "capacity": cap, "round": round, "seed": s});
+        progress(&json!({"sig": format!("C05/{}/auto-gc/crash", K::NAME), "ctx": ctx}).to_string());
+        let order: Vec<u32> = (0..n).collect();
+        let mr = crate::build::mk_manager::<K>(n, &order, cap, 64, if round % 2 == 0 { 1 } else { 3 });
+        let vs = crate::build::vars::<K>(&mr, n);
+        let mut pool: Vec<(K::F, TT)> = vs.iter().enumerate().map(|(v, f)| (f.clone(), TT::var(n, v as u32))).collect();
+        let gc0 = K::gc_count(&mr);
+        let mut ooms = 0;
+        let mut bad: Option<String> = None;
+        for i in 0..600usize {
+            s = mix(s);
+            let a = (s % pool.len() as u64) as usize;
+            let b = ((s >> 20) % pool.len() as u64) as usize;
+            let op = BINOPS[((s >> 40) % 8) as usize];
+            let r = match op {
+                BinOp::And => pool[a].0.and(&pool[b].0),
+                BinOp::Or => pool[a].0.or(&pool[b].0),
+                BinOp::Xor => pool[a].0.xor(&pool[b].0),
+                BinOp::Equiv => pool[a].0.equiv(&pool[b].0),
+                BinOp::Nand => pool[a].0.nand(&pool[b].0),
+                BinOp::Nor => pool[a].0.nor(&pool[b].0),
+                BinOp::Imp => pool[a].0.imp(&pool[b].0),
+                BinOp::ImpStrict => pool[a].0.imp_strict(&pool[b].0),
+            };
+            match r {
+                Ok(f) => {
+                    let t = op.tt(&pool[a].1, &pool[b].1);
+                    rep.evaluations += 1;
+                    let got = K::table(&f, n);
+                    if got != t {
+                        bad = Some(format!("result-table: op {i} {op:?}: expected {t:?}, got {got:?} (background collector active: {})", K::gc_count(&mr) > gc0));
+                        break;
+                    }
+                    if pool.len() >= 14 {
+                        let k = n as usize + ((s >> 50) as usize % (pool.len() - n as usize));
+                        pool.remove(k); // drop: produces garbage for the collector
+                    }
+                    pool.push((f, t));
+                }
+                Err(_) => {
+                    ooms += 1;
+                    if pool.len() > n as usize + 2 {
+                        pool.truncate(n as usize + 2);
+                    }
+                }
+            }
+        }
+        let auto = K::gc_count(&mr) - gc0;
+        if auto > 0 {
+            observed += 1;
+        }
+        if bad.is_none() {
+            // every handle still denotes its function, audits pass (exclusive lock: collector idle)
+            for (f, t) in &pool {
+                if K::table(f, n) != *t {
+                    bad = Some(format!("preserve: a handle changed its function after {auto} automatic collections"));
+                    break;
+                }
+            }
+        }
+        if bad.is_none() {
+            let handles: Vec<&K::F> = pool.iter().map(|p| &p.0).chain(vs.iter()).collect();
+            if let Err(e) = K::audit(&mr, &handles, true) {
+                bad = Some(format!("audit-after-auto-gc: {e} ({auto} automatic collections)"));
+            }
+        }
+        if let Some(m) = bad {
+            rep.viol(format!("C05/{}/auto-gc/{}", K::NAME, crate::hrun::category(&m)), m, ctx.clone());
+        } else if auto > 0 {
+            rep.nontrivial += 1;
+        }
+        rep.class_n(&format!("{}.auto_gc.collections", K::NAME), auto);
+        rep.class_n(&format!("{}.auto_gc.oom_results", K::NAME), ooms);
+        if rep.samples.is_empty() {
+            rep.sample(json!({"suite": "automatic collections", "ctx": ctx, "automatic_collections": auto}));
+        }
+    }
+    rep.class_n(&format!("{}.auto_gc.rounds", K::NAME), rounds as u64);
+    rep.class_n(&format!("{}.auto_gc.rounds_with_background_collection", K::NAME), observed);
+}
+
 pub fn add_jobs<'a>(cfg: &'a Cfg, jobs: &mut Vec<Box<dyn FnMut(&mut dyn Write) + 'a>>, names: &mut Vec<String>) {
+    macro_rules! autogc {
+        ($K:ty, $salt:expr) => {
+            let seed = mix(cfg.seed ^ (0xc05_d00 + $salt));
+            let rounds = cfg.t(40, 400);
+            names.push(format!("auto-gc/{}", <$K>::NAME));
+            jobs.push(Box::new(move |w: &mut dyn Write| {
+                let mut rep = Report::default();
+                auto_gc::<$K>(seed, rounds, &mut rep);
+                rep.emit(w);
+            }));
+        };
+    }
+    autogc!(BddK, 1);
+    autogc!(BcddK, 2);
+    autogc!(ZbddK, 3);
     let checks = Checks { canon: false, structure: true, rc: true, node_count: false };
     let nt = |s: &crate::hrun::CaseStats| s.gc_removed > 0 && s.gcs > 0;
     for sh in 0..cfg.t(2, 4) {
